@@ -624,6 +624,8 @@ class ChartRules:
             for c in s.calls:
                 if c is bc:
                     continue
+                if c.inlined and c.fn[0] in ("func", "closure", "boundcls"):
+                    continue  # handing the body to a helper whose own body is part of this summary is not a use by itself
                 for a in list(c.args) + [v for _, v in c.kwargs]:
                     if any(strip(t) == body for t in subterms(a)) and c.loops == (loop.id,):
                         fail(r_sel, ctx, f, c.node, f"the section body is consumed outside the track construction ({show(c.result)[:100]}): an "
